@@ -578,6 +578,8 @@
 
 #![deny(missing_docs)]
 #![forbid(unsafe_code)]
+// `evalexpr_verif` guards the verification hooks (src/verif.rs); it is only ever set through RUSTFLAGS.
+#![allow(unexpected_cfgs)]
 #![allow(clippy::get_first)]
 
 pub use crate::{
@@ -611,5 +613,7 @@ mod operator;
 mod token;
 mod tree;
 mod value;
+#[cfg(evalexpr_verif)]
+mod verif;
 
 // Exports
